@@ -5,7 +5,7 @@
 set -u
 RACE=""
 if [ "${1:-}" = "-race" ]; then RACE="-race"; shift; fi
-OUT="${1:?output binary}"
+OUT="$(realpath -m "${1:?output binary}")"
 export GOFLAGS=-mod=mod GOPROXY=off GOSUMDB=off GOTOOLCHAIN=local CGO_ENABLED=${CGO_ENABLED:-1}
 REPO="${VERIF_REPO:-/repo}"
 HERE="$(cd "$(dirname "$0")" && pwd)"
